@@ -584,11 +584,11 @@ impl C05 {
 impl Monitor for C05 {
     fn engines(&self, tier: Tier) -> Vec<(&'static str, u64)> {
         vec![
-            ("clean", tier.pick(40_000, 400_000)),
-            ("hostile", tier.pick(300_000, 4_000_000)),
-            ("sweep", tier.pick(4_000, 40_000)),
-            ("iplevel", tier.pick(100_000, 1_000_000)),
-            ("single", tier.pick(100_000, 1_000_000)),
+            ("clean", tier.pick(400000, 40000000)),
+            ("hostile", tier.pick(3000000, 400000000)),
+            ("sweep", tier.pick(40000, 4000000)),
+            ("iplevel", tier.pick(1000000, 100000000)),
+            ("single", tier.pick(1000000, 100000000)),
         ]
     }
 
